@@ -645,8 +645,8 @@ Vinitialize(HFILEID f /* IN: file handle */)
     /* clear error stack */
     HEclear();
 
-    /* Check file ID */
-    if (f < 0)
+    /* Check that the file ID refers to an open file */
+    if (!HDvalidfid(f))
         HGOTO_ERROR(DFE_ARGS, FAIL);
 
     /* Perform global, one-time initialization */
